@@ -26,8 +26,13 @@ IsCmp(o) == o.op \in {"<", ">", "=", "<>", "<=", ">="}
 (* & joins an integer as its digits (C06), whatever its size: o.txt is the observed text, o.suffix the text operand *)
 JoinExpected(o) == (IF o.a.neg THEN <<45>> ELSE <<>>) \o o.a.ds \o o.suffix
 Same(x, e) == x.int /\ NormS([neg |-> x.neg, m |-> BOfDigits(x.ds)]) = e
+(* MATCH(x, items, 0) on integers beyond TLC's range (C18): the 1-based position of the first item equal to x, or #N/A *)
+FirstEqual(o) == LET X == NormS(Signed(o.a))
+                     hits == {i \in 1..Len(o.items) : NormS(Signed(o.items[i])) = X}
+                 IN IF hits = {} THEN 0 ELSE CHOOSE i \in hits : \A j \in hits : i <= j
 Failing(o) ==
-  IF o.op = "&" THEN (IF o.txt = JoinExpected(o) /\ o.txt2 = o.suffix \o (IF o.a.neg THEN <<45>> ELSE <<>>) \o o.a.ds THEN <<>> ELSE <<"digits_joined">>)
+  IF o.op = "match" THEN (IF o.pos = FirstEqual(o) THEN <<>> ELSE <<"position_of_first_equal_item">>)
+  ELSE IF o.op = "&" THEN (IF o.txt = JoinExpected(o) /\ o.txt2 = o.suffix \o (IF o.a.neg THEN <<45>> ELSE <<>>) \o o.a.ds THEN <<>> ELSE <<"digits_joined">>)
   ELSE IF IsCmp(o) THEN (IF o.truth = "TRUE" /\ CmpExpected(o) THEN <<>> ELSE IF o.truth = "FALSE" /\ ~CmpExpected(o) THEN <<>>
                     ELSE <<"numeric_order">>)
   ELSE
